@@ -227,6 +227,22 @@ func checkC15(r *core.Run) {
 		setField(&p, f, v)
 		return p
 	}
+	// hidden state between calls (runs first, sequentially)
+	var items []pairItem
+	for _, p := range []safehtml.StyleProperties{{}, {Color: "red"}, {Color: "r;d"}, {Color: "expression(1)"}, {Width: "1px"}, {Width: "1px;color:red"}, {Width: "a,b"},
+		{BackgroundImageURLs: []string{"/a"}}, {BackgroundImageURLs: []string{"javascript:x"}}, {BackgroundImageURLs: []string{"/a\")"}}, {BackgroundImageURLs: []string{"/a", "javascript:x"}},
+		{FontFamily: []string{"a b"}}, {FontFamily: []string{"a\"b"}}, {FontFamily: []string{"serif", "a;b"}}, {FontFamily: []string{"\"a\""}}, {Display: "none"}, {Display: "no ne"},
+		{Color: strings.Repeat("a", 300)}, {Color: strings.Repeat("a", 255) + ";"}, {Height: "%s"}, {Height: "10%"}, {BackgroundRepeat: "no-repeat"}, {BackgroundRepeat: "url(x)"},
+		{BackgroundPosition: "top le;ft"}, {BackgroundColor: "#fff"}, {BackgroundColor: "/*"}} {
+		p := p
+		items = append(items, pairItem{name: c15Compact(p), replay: c15ReplayMap(p), judge: func() (cl, what string) {
+			if pn, msg := core.Try(func() { cl, _, what = c15Judge(p) }); pn {
+				return "panic", "panicked: " + msg
+			}
+			return cl, what
+		}})
+	}
+	pairLayer(r, items)
 	class := []string{"a", "1", " ", ";", ":", "{", "}", "(", ")", "\"", "'", "\\", "/", "*", "@", "!", "<", "\n", ",", "-", "é", "\x00", "[", "]", "\f", "important", "url("}
 	// (a) every plain field: all byte strings <=1, class strings <=2; followed by another set field
 	for _, f := range c15Plain {
@@ -368,4 +384,13 @@ func checkC15(r *core.Run) {
 		r.Sample(map[string]interface{}{"properties": p, "result": safehtml.StyleFromProperties(p).String()})
 	}
 	r.Assume("oracle O4 (CSS Syntax 3 tokenizer/parser written from the spec, self-tested on hand-derived cases) is correct")
+}
+
+// c15ReplayMap is the replay form of a property set (the struct's own JSON fields), as a map so that a pair
+// witness can add the predecessor call.
+func c15ReplayMap(p safehtml.StyleProperties) map[string]interface{} {
+	b, _ := json.Marshal(p)
+	m := map[string]interface{}{}
+	json.Unmarshal(b, &m)
+	return m
 }
